@@ -8,7 +8,7 @@ usage: tools/selftest.py [--jobs N] [--only substring] [--all-props] [--seeded]
 """
 import json, os, shutil, subprocess, sys, time, threading, queue
 V = os.path.dirname(os.path.dirname(os.path.abspath(__file__)))
-SCR = "/tmp/vselftest"
+SCR = "/tmp/vselftest/%d" % os.getpid()  # one scratch area per invocation (concurrent runs must not share worker clones)
 
 def sh(cmd, cwd=None, env=None, timeout=3600):
     p = subprocess.run(cmd, cwd=cwd, env=env, stdout=subprocess.PIPE, stderr=subprocess.STDOUT, text=True, timeout=timeout)
